@@ -188,12 +188,19 @@ class T:
             if dl is not None and dr is not None and isinstance(op, (ast.Eq, ast.NotEq)):
                 e = "dtype_equiv np_le (%s) (%s)" % (dl, dr)
                 return e if isinstance(op, ast.Eq) else "negb (%s)" % e
+            if isinstance(op, (ast.Eq, ast.NotEq, ast.Is, ast.IsNot)) and self._is_boolish(l, env) and self._is_boolish(r, env):
+                e = "Bool.eqb (%s) (%s)" % (self.bexpr(l, env), self.bexpr(r, env))
+                return e if isinstance(op, (ast.Eq, ast.Is)) else "negb (%s)" % e
             self.err("comparison outside the subset", n)
         if isinstance(n, ast.Call) and isinstance(n.func, ast.Name) and n.func.id in self.preds:
             if len(n.args) != 1 or n.keywords:
                 self.err("predicate call with unexpected arguments", n)
             return "%s_%s_g np_le (%s)" % (self.mod, n.func.id, self.order_of_arg(n.args[0]))
         self.err("boolean expression outside the subset", n)
+
+    def _is_boolish(self, n, env):
+        return ((isinstance(n, ast.Constant) and isinstance(n.value, bool)) or (isinstance(n, ast.Name) and env.get(n.id) == "bool")
+                or (isinstance(n, ast.Attribute) and u(n) in ("np.little_endian", "numpy.little_endian")))
 
     def oexpr(self, n, env):
         """expression denoting an array object -> gallina of type outcome"""
